@@ -95,6 +95,14 @@ func controlExpectations() []traceCase {
 		traceCase{"n = 0; function next() { n = n + 1; rec(n); return n; } switch (1) { case next(), next() { rec(\"hit\"); } case next() { rec(\"second\"); } } return n;", tr("1", "hit"), "V:INTEGER:" + hexs("1")},
 		traceCase{"switch (3) { case 1, 1, 3, 3 { rec(\"a\"); } case 3 { rec(\"b\"); } default { rec(\"d\"); } } return 0;", tr("a"), "V:INTEGER:" + hexs("0")},
 	)
+	// a switch that never tests its value (only default blocks, or none) does not evaluate it either, and leaves
+	// nothing behind - also inside a loop
+	out = append(out,
+		traceCase{"function v() { rec(\"v\"); return 1; } switch (v()) { default { rec(\"d\"); } } rec(\"after\"); return 3;", tr("d", "after"), "V:INTEGER:" + hexs("3")},
+		traceCase{"function v() { rec(\"v\"); return 1; } switch (v()) { } rec(\"after\"); return 3;", tr("after"), "V:INTEGER:" + hexs("3")},
+		traceCase{"function v() { rec(\"v\"); return 1; } foreach i in [1, 2] { switch (v()) { default { rec(i); } } } return 3;", tr("1", "2"), "V:INTEGER:" + hexs("3")},
+		traceCase{"function v() { rec(\"v\"); return 1; } foreach i in [1, 2] { switch (v()) { case 1 { rec(i); } default { rec(\"d\"); } } } return 3;", tr("v", "1", "v", "2"), "V:INTEGER:" + hexs("3")},
+	)
 	// function definitions wherever they stand - between statements, inside other functions, inside blocks and
 	// loop bodies, in switch arms - do nothing at run time and drop nothing around them
 	out = append(out,
